@@ -658,7 +658,8 @@ impl StructState {
 
 use crate::gen::{Attr, AttrKind};
 
-/// name of an attribute as the generated code compares it: the path's token string
+/// the path of an attribute, segments joined by `::`, a leading `::` kept: what `attributes(..)` /
+/// `forward_attrs(..)` entries are compared with
 pub fn attr_key(a: &Attr) -> String {
     match &a.kind {
         AttrKind::Foreign(text) => {
@@ -668,9 +669,9 @@ pub fn attr_key(a: &Attr) -> String {
             // #[path ...]
             let inner = text.trim_start_matches("#[").trim_end_matches(']');
             let end = inner.find(|c: char| !(c.is_alphanumeric() || c == '_' || c == ':')).unwrap_or(inner.len());
-            inner[..end].replace("::", " :: ")
+            inner[..end].to_string()
         }
-        _ => a.name.replace("::", " :: "),
+        _ => a.name.clone(),
     }
 }
 
